@@ -274,6 +274,35 @@ func (ex *exec) mergeIn(b *ssa.BasicBlock) (*State, string) {
 	rn := vc.fresh(fmt.Sprintf("reach_b%d", b.Index))
 	vc.declared[rn] = true
 	vc.addLine(fmt.Sprintf("(define-fun %s () Bool %s)", rn, reach))
+	st := ex.mergeCore(ins)
+	// baseline of the current frame segment
+	allSame, anyNil := true, false
+	for _, e := range ins {
+		if e.st.syncBase != ins[0].st.syncBase {
+			allSame = false
+		}
+		if e.st.syncBase == nil {
+			anyNil = true
+		}
+	}
+	switch {
+	case allSame:
+		st.syncBase = ins[0].st.syncBase
+	case anyNil:
+		st.syncBase = nil // leaving the loop on some edge: no segment baseline beyond this point
+	default:
+		var ins2 []edgeIn
+		for _, e := range ins {
+			ins2 = append(ins2, edgeIn{cond: e.cond, st: e.st.syncBase, from: e.from})
+		}
+		st.syncBase = ex.mergeCore(ins2)
+	}
+	return st, rn
+}
+
+// mergeCore merges the states of several incoming edges (each under its edge condition) into one.
+func (ex *exec) mergeCore(ins []edgeIn) *State {
+	vc := ex.vc
 	st := &State{locals: map[*ssa.Alloc]string{}, heap: map[string]string{}}
 	// epoch
 	sameEpoch := true
@@ -331,7 +360,7 @@ func (ex *exec) mergeIn(b *ssa.BasicBlock) (*State, string) {
 			st.heap[k] = t
 		}
 	}
-	return st, rn
+	return st
 }
 
 func valueName(v ssa.Value) string { return fmt.Sprintf("%s@%d", v.Name(), v.Pos()) }
@@ -521,6 +550,9 @@ func (ex *exec) loopHead(li *loopInfo, st *State) {
 		vc.probe(fmt.Sprintf("vacuity.loop%d", li.ordinal), ex.cur, "loop invariant is satisfiable at the loop head")
 	}
 	ex.headSt[li.header] = st.clone()
+	if spec != nil && spec.HasModifies {
+		st.syncBase = ex.headSt[li.header]
+	}
 }
 
 func clauseName(c Clause, i int) string {
@@ -1220,7 +1252,11 @@ func (ex *exec) edge(st *State, from, to *ssa.BasicBlock, cond string) {
 				vc.oblige(c.name, "auto", cond, c.check(st), "inferred candidate invariant", pos)
 			}
 			if pre := ex.loopPre[li.header]; pre != nil {
-				ex.frameCheckAgainst(st, ex.headSt[li.header], pre, spec.Modifies, cond, fmt.Sprintf("loop%d.frame", li.ordinal), pos, li)
+				base := ex.headSt[li.header]
+				if st.syncBase != nil {
+					base = st.syncBase
+				}
+				ex.frameCheckAgainst(st, base, pre, spec.Modifies, cond, fmt.Sprintf("loop%d.frame", li.ordinal), pos, li)
 			}
 			if spec.Decreases != nil {
 				v, err := env.term(spec.Decreases.E)
@@ -1652,10 +1688,30 @@ func (ex *exec) chanOp(st *State, ins ssa.Instruction) {
 	if fc == nil || !fc.HasSync {
 		ex.bail("channel operation")
 	}
+	// the segment that ends here is checked against the loop's modifies clause before the other goroutines get their say
+	var segLoop *loopInfo
+	if st.syncBase != nil && ex.curBlock != nil {
+		for _, li := range ex.loops {
+			if li.blocks[ex.curBlock] {
+				if sp := ex.loopSpec(li); sp != nil && sp.HasModifies && ex.loopPre[li.header] != nil {
+					if segLoop == nil || len(li.blocks) < len(segLoop.blocks) {
+						segLoop = li
+					}
+				}
+			}
+		}
+	}
+	if segLoop != nil {
+		ex.frameCheckAgainst(st, st.syncBase, ex.loopPre[segLoop.header], ex.loopSpec(segLoop).Modifies, ex.cur, fmt.Sprintf("loop%d.frame@sync", segLoop.ordinal), posStr(vc.eng.fset, ins.Pos()), segLoop)
+	}
 	before := st.clone()
 	keeps := ex.syncKeeps(before)
 	vc.havocAllHeap(st)
 	ex.applyKeeps(keeps, before, st, nil)
+	if segLoop != nil {
+		st.syncBase = nil
+		st.syncBase = st.clone()
+	}
 	// value received
 	if u, ok := ins.(*ssa.UnOp); ok {
 		t := u.Type()
